@@ -197,6 +197,12 @@ impl<const PROBS_ARRAY_LEN: usize> BitTree<PROBS_ARRAY_LEN> {
     ) -> io::Result<u32> {
         rangecoder.parse_reverse_bit_tree(Self::NUM_BITS, &mut self.probs, 0, update)
     }
+
+    /// Verification hook: number of probabilities that left their initial value.
+    #[cfg(lzma_rs_verif)]
+    pub fn verif_dirty(&self) -> u64 {
+        self.probs.iter().filter(|x| **x != 0x400).count() as u64
+    }
 }
 
 #[derive(Debug)]
@@ -266,5 +272,15 @@ impl LenDecoder {
         } else {
             Ok(self.high_coder.parse(rangecoder, update)? as usize + 16)
         }
+    }
+
+    /// Verification hook: number of probabilities that left their initial value.
+    #[cfg(lzma_rs_verif)]
+    pub fn verif_dirty(&self) -> u64 {
+        (self.choice != 0x400) as u64
+            + (self.choice2 != 0x400) as u64
+            + self.low_coder.iter().map(|t| t.verif_dirty()).sum::<u64>()
+            + self.mid_coder.iter().map(|t| t.verif_dirty()).sum::<u64>()
+            + self.high_coder.verif_dirty()
     }
 }
